@@ -140,62 +140,206 @@ func (e *engine) runC32() {
 		if i%7 == 0 && len(l) > 0 {
 			l = append(l, append([]byte(nil), l[0]...)) // duplicate inside one list
 		}
-		// SortHashes vs model sort
-		ls := cloneList(l)
-		link_solicit.SortHashes(ls)
-		ops := "solicit.sort l=" + lib.HexList(l)
-		e.rep.Compare(ops, e.m.Query(ops), "ok "+lib.HexList(ls), "sort", "solicit.sort", "")
-		rs := cloneList(r)
-		link_solicit.SortHashes(rs)
-		op := fmt.Sprintf("solicit.find l=%s r=%s", lib.HexList(ls), lib.HexList(rs))
-		model := e.m.Query(op)
-		got := link_solicit.FindMatchingHashes(ls, rs)
-		impl := "ok " + lib.HexList(got)
-		mon := ""
-		// monitor: exactly the set intersection, in order
-		inL := map[string]bool{}
-		inR := map[string]bool{}
-		for _, x := range ls {
-			inL[string(x)] = true
+		e.findCase(l, r, "")
+	}
+	e.longLists()
+}
+
+// findCase: SortHashes and FindMatchingHashes on one pair of lists, against the model and against
+// the clause stated directly (exactly the set intersection, in order, not aliasing the inputs).
+func (e *engine) findCase(l, r [][]byte, class string) {
+	// SortHashes vs model sort
+	ls := cloneList(l)
+	link_solicit.SortHashes(ls)
+	ops := "solicit.sort l=" + lib.HexList(l)
+	smon := ""
+	for k := 1; k < len(ls); k++ {
+		if bytes.Compare(ls[k-1], ls[k]) > 0 {
+			smon = "SortHashes result is not in bytewise order"
 		}
-		for _, x := range rs {
-			inR[string(x)] = true
+	}
+	if !sameMultiset(l, ls) {
+		smon = "SortHashes result is not a permutation of its input"
+	}
+	e.rep.Compare(ops, e.m.Query(ops), "ok "+lib.HexList(ls), "sort"+class, "solicit.sort", smon)
+	rs := cloneList(r)
+	link_solicit.SortHashes(rs)
+	op := fmt.Sprintf("solicit.find l=%s r=%s", lib.HexList(ls), lib.HexList(rs))
+	model := e.m.Query(op)
+	got := link_solicit.FindMatchingHashes(ls, rs)
+	impl := "ok " + lib.HexList(got)
+	mon := ""
+	// monitor: exactly the set intersection, in order
+	inL := map[string]bool{}
+	inR := map[string]bool{}
+	for _, x := range ls {
+		inL[string(x)] = true
+	}
+	for _, x := range rs {
+		inR[string(x)] = true
+	}
+	gotSet := map[string]bool{}
+	for k, x := range got {
+		gotSet[string(x)] = true
+		if !inL[string(x)] || !inR[string(x)] {
+			mon = "FindMatchingHashes returned a hash that is not in both lists"
 		}
-		gotSet := map[string]bool{}
-		for k, x := range got {
-			gotSet[string(x)] = true
-			if !inL[string(x)] || !inR[string(x)] {
-				mon = "FindMatchingHashes returned a hash that is not in both lists"
+		if k > 0 && bytes.Compare(got[k-1], x) > 0 {
+			mon = "FindMatchingHashes result is not in order"
+		}
+	}
+	for x := range inL {
+		if inR[x] && !gotSet[x] {
+			mon = fmt.Sprintf("FindMatchingHashes missed a common hash (%x…, lists of %d and %d entries)", trunc([]byte(x), 6), len(ls), len(rs))
+		}
+	}
+	// aliasing: mutate inputs afterwards, result must not change
+	snap := lib.HexList(got)
+	for _, x := range ls {
+		for y := range x {
+			x[y] ^= 0xff
+		}
+	}
+	for _, x := range rs {
+		for y := range x {
+			x[y] ^= 0xff
+		}
+	}
+	if lib.HexList(got) != snap {
+		mon = "matched hashes alias the input slices"
+	}
+	br := "find.nonempty"
+	if len(got) == 0 {
+		br = "find.empty"
+	}
+	if class != "" {
+		br = "find" + class
+	}
+	e.rep.Compare(op, model, impl, br, "solicit.find", mon)
+}
+
+func trunc(b []byte, n int) []byte {
+	if len(b) > n {
+		return b[:n]
+	}
+	return b
+}
+
+func sameMultiset(a, b [][]byte) bool {
+	if len(a) != len(b) {
+		return false
+	}
+	m := map[string]int{}
+	for _, x := range a {
+		m[string(x)]++
+	}
+	for _, x := range b {
+		m[string(x)]--
+	}
+	for _, k := range m {
+		if k != 0 {
+			return false
+		}
+	}
+	return true
+}
+
+// longLists: lists of 16–300 entries (where a galloping / binary-search / parallel fast path would
+// start to run) with the common hashes planted at the head, at the tail, at the powers of two and
+// at random places; and lists whose entries have DIFFERENT lengths (1–33 bytes, prefix pairs
+// x / x‖00 / x‖ff included), where a comparison on a fixed-width key or on a prefix goes wrong.
+func (e *engine) longLists() {
+	e.rep.Require("find.long", "sort.long", "find.mixedlen", "sort.mixedlen", "find.sweep")
+	// sweep: ONE long sorted list against a list of one or two of its entries, for EVERY position of
+	// the common entry (and both roles): a skip-ahead that jumps over an equal entry — whatever its
+	// stride and wherever it starts — drops the match at some position
+	for rep := 0; rep < e.a.Scale; rep++ {
+		size := []int{70, 100, 140}[e.rng.Intn(3)]
+		var long [][]byte
+		for x := 0; x < size; x++ {
+			long = append(long, e.rng.Bytes(32))
+		}
+		sort.Slice(long, func(a, b int) bool { return bytes.Compare(long[a], long[b]) < 0 })
+		for p := 0; p < size; p++ {
+			short := [][]byte{append([]byte(nil), long[p]...)}
+			if p%3 == 0 && p+1 < size {
+				short = append(short, append([]byte(nil), long[p+1]...))
 			}
-			if k > 0 && bytes.Compare(got[k-1], x) > 0 {
-				mon = "FindMatchingHashes result is not in order"
+			if p%4 == 1 {
+				short = append(short, e.rng.Bytes(32)) // and one that is not common
+			}
+			if p%2 == 0 {
+				e.findCase(cloneList(long), short, ".sweep")
+			} else {
+				e.findCase(short, cloneList(long), ".sweep")
 			}
 		}
-		for x := range inL {
-			if inR[x] && !gotSet[x] {
-				mon = "FindMatchingHashes missed a common hash"
+	}
+	n := 24 * e.a.Scale
+	for i := 0; i < n; i++ {
+		mixed := i%2 == 1
+		class := ".long"
+		if mixed {
+			class = ".mixedlen"
+		}
+		one := func() []byte {
+			if !mixed {
+				return e.rng.Bytes(32)
+			}
+			lens := []int{1, 2, 3, 16, 31, 32, 32, 32, 33, 1 + e.rng.Intn(33)}
+			b := e.rng.Bytes(lens[e.rng.Intn(len(lens))])
+			if e.rng.Intn(3) == 0 && len(b) < 8 {
+				for y := range b {
+					b[y] &= 1
+				}
+			}
+			return b
+		}
+		mk := func(k int) [][]byte {
+			var l [][]byte
+			for x := 0; x < k; x++ {
+				b := one()
+				l = append(l, b)
+				if mixed && e.rng.Intn(3) == 0 {
+					// prefix pairs
+					l = append(l, append(append([]byte(nil), b...), 0x00), append(append([]byte(nil), b...), 0xff))
+				}
+			}
+			return l
+		}
+		sizes := []int{16, 17, 31, 32, 33, 64, 65, 100, 128, 129, 255, 256, 257, 300}
+		nl, nr := sizes[e.rng.Intn(len(sizes))], sizes[e.rng.Intn(len(sizes))]
+		if i%5 == 4 {
+			nr = 1 + e.rng.Intn(3) // one long, one very short list
+		}
+		l, r := mk(nl), mk(nr)
+		// the common entries sit where they do in the SORTED left list: head, tail, powers of two, random
+		sl := cloneList(l)
+		sort.Slice(sl, func(a, b int) bool { return bytes.Compare(sl[a], sl[b]) < 0 })
+		var at []int
+		switch i % 4 {
+		case 0:
+			at = []int{0, 1, len(sl) - 1}
+		case 1:
+			for k := 1; k < len(sl); k *= 2 {
+				at = append(at, k, k-1)
+			}
+		case 2:
+			at = []int{len(sl) - 1, len(sl) - 2, len(sl) / 2}
+		default:
+			for k := 0; k < 1+e.rng.Intn(12); k++ {
+				at = append(at, e.rng.Intn(len(sl)))
 			}
 		}
-		// aliasing: mutate inputs afterwards, result must not change
-		snap := lib.HexList(got)
-		for _, x := range ls {
-			for y := range x {
-				x[y] ^= 0xff
+		for _, k := range at {
+			if k >= 0 && k < len(sl) {
+				r = append(r, append([]byte(nil), sl[k]...))
 			}
 		}
-		for _, x := range rs {
-			for y := range x {
-				x[y] ^= 0xff
-			}
+		if i%3 == 0 {
+			r = append(r, append([]byte(nil), sl[0]...)) // duplicate of a common entry
 		}
-		if lib.HexList(got) != snap {
-			mon = "matched hashes alias the input slices"
-		}
-		br := "find.nonempty"
-		if len(got) == 0 {
-			br = "find.empty"
-		}
-		e.rep.Compare(op, model, impl, br, "solicit.find", mon)
+		e.findCase(l, r, class)
 	}
 }
 
@@ -305,31 +449,49 @@ func (e *engine) runC30() {
 	// resolveMatch: for each (pid, ctx) hash, exactly the admitted directives with that pid/ctx get a value
 	for _, pid := range pids {
 		for _, c := range ctxv {
-			h := link_solicit.ComputeProtocolHash(sid, pid, c)
-			hs := make([]*fakeHandler, len(dirs))
-			rhs := make([]directive.ResolverHandler, len(dirs))
-			for i := range hs {
-				hs[i] = &fakeHandler{}
-				rhs[i] = hs[i]
+			e.resolveCase(le, sid, ml, dirs, func(i int) (protocol.ID, []byte, bool) {
+				d := dds[i]
+				return d.pid, d.ctx, (d.peer == "" || d.peer == remote) && (d.tpt == 0 || d.tpt == 42)
+			}, pid, c, "resolve")
+		}
+	}
+	// … and ONE node holding separator-ambiguous solicitations at the same time: every split of one
+	// byte string, NUL / slash / colon moved across the boundary, the empty context; under every
+	// constraint class. Whatever resolveMatch keeps between directives of one call (a memo keyed by
+	// the concatenation, a joined key, …) is shared by all of them here; each hash is resolved
+	// several times because the controller walks its directive set in map order.
+	e.rep.Require("resolve.ambiguous")
+	type pcx struct {
+		pid protocol.ID
+		ctx []byte
+	}
+	amb := []pcx{{"abc", nil}, {"ab", []byte("c")}, {"a", []byte("bc")}, {"a\x00", []byte("b")}, {"a", []byte("\x00b")}, {"a/b", []byte("c")}, {"a", []byte("/bc")},
+		{"a:", []byte("b")}, {"a", []byte(":b")}, {"a|b", nil}, {"a", []byte("|b")}, {"1", []byte("23")}, {"12", []byte("3")}}
+	var adirs []link_solicit.SolicitProtocol
+	var adds []dd
+	for _, x := range amb {
+		for _, p := range peers {
+			for _, t := range tpts {
+				adirs = append(adirs, link_solicit.NewSolicitProtocol(x.pid, x.ctx, p, t))
+				adds = append(adds, dd{x.pid, x.ctx, p, t})
 			}
-			link_solicit_controller.VerifResolveMatch(le, dirs, rhs, ml, sid, h, nil)
-			var got, want []string
-			for i, d := range dds {
-				adm := (d.peer == "" || d.peer == remote) && (d.tpt == 0 || d.tpt == 42)
-				if adm && d.pid == pid && bytes.Equal(d.ctx, c) {
-					want = append(want, fmt.Sprint(i))
+		}
+	}
+	for _, x := range amb {
+		for rep := 0; rep < 4; rep++ {
+			// a random subset holding at least the solicitation itself and its boundary-shifted twins
+			var sub []link_solicit.SolicitProtocol
+			var subd []dd
+			for i, d := range adds {
+				if string(d.pid)+string(d.ctx) == string(x.pid)+string(x.ctx) || e.rng.Intn(3) == 0 {
+					sub = append(sub, adirs[i])
+					subd = append(subd, d)
 				}
-				if len(hs[i].vals) > 0 {
-					got = append(got, fmt.Sprint(i))
-				}
 			}
-			sort.Strings(got)
-			sort.Strings(want)
-			mon := ""
-			if strings.Join(got, ",") != strings.Join(want, ",") {
-				mon = "resolveMatch delivered to directives " + strings.Join(got, ",") + " but exactly " + strings.Join(want, ",") + " name this protocol/context and admit the link"
-			}
-			e.rep.Compare("resolve pid="+string(pid)+" ctx="+hex.EncodeToString(c), "x", "x", "resolve", "solicit.resolve", mon)
+			e.resolveCase(le, sid, ml, sub, func(i int) (protocol.ID, []byte, bool) {
+				d := subd[i]
+				return d.pid, d.ctx, (d.peer == "" || d.peer == remote) && (d.tpt == 0 || d.tpt == 42)
+			}, x.pid, x.ctx, "resolve.ambiguous")
 		}
 	}
 	// truncation to maxHashes keeps the sorted prefix
@@ -339,6 +501,57 @@ func (e *engine) runC30() {
 	if len(tr) != 2 || !bytes.Equal(tr[0], all[0]) || !bytes.Equal(tr[1], all[1]) {
 		e.rep.Disagree(lib.Disagreement{Op: "computeHashes maxHashes=2", Monitor: "unconfirmed", What: "computeHashes truncation differs from sorted prefix", Key: "solicit.truncate"})
 	}
+}
+
+
+// resolveCase runs resolveMatch (through the verif hook) for the hash of (pid, ctx) on a node that
+// holds dirs, and states the clause directly: exactly the directives that name this protocol ID and
+// this context and whose constraints admit the link receive the value.
+func (e *engine) resolveCase(le *logrus.Entry, sid []byte, ml link.MountedLink, dirs []link_solicit.SolicitProtocol,
+	spec func(i int) (protocol.ID, []byte, bool), pid protocol.ID, c []byte, branch string) {
+	h := link_solicit.ComputeProtocolHash(sid, pid, c)
+	hs := make([]*fakeHandler, len(dirs))
+	rhs := make([]directive.ResolverHandler, len(dirs))
+	for i := range hs {
+		hs[i] = &fakeHandler{}
+		rhs[i] = hs[i]
+	}
+	out := lib.Recover(func() string {
+		link_solicit_controller.VerifResolveMatch(le, dirs, rhs, ml, sid, h, nil)
+		return "x"
+	})
+	var got, want []string
+	for i := range dirs {
+		dp, dc, adm := spec(i)
+		if adm && dp == pid && bytes.Equal(dc, c) {
+			want = append(want, fmt.Sprint(i))
+		}
+		if len(hs[i].vals) > 0 {
+			got = append(got, fmt.Sprint(i))
+		}
+	}
+	sort.Strings(got)
+	sort.Strings(want)
+	mon := ""
+	if strings.Join(got, ",") != strings.Join(want, ",") {
+		var wrong []string
+		for i := range dirs {
+			dp, dc, adm := spec(i)
+			if len(hs[i].vals) > 0 && !(adm && dp == pid && bytes.Equal(dc, c)) {
+				wrong = append(wrong, fmt.Sprintf("(%q,%q)", dp, dc))
+			}
+		}
+		mon = fmt.Sprintf("resolveMatch for the hash of (%q,%q) on a node holding %d solicitations delivered to directives %s but exactly %s name this protocol/context and admit the link", pid, c, len(dirs), strings.Join(got, ","), strings.Join(want, ","))
+		if len(wrong) > 0 {
+			mon += "; wrongly served: " + strings.Join(wrong, " ")
+		}
+	}
+	// a panic here is reported as a disagreement (outcome "panic …" ≠ "x"), not as a confirmed
+	// violation: the hook builds a bare linkState, so state the real addLink initialises may be missing
+	if strings.HasPrefix(out, "panic") {
+		mon = ""
+	}
+	e.rep.Compare(fmt.Sprintf("%s pid=%s ctx=%s ndirs=%d", branch, hex.EncodeToString([]byte(pid)), hex.EncodeToString(c), len(dirs)), "x", out, branch, "solicit.resolve", mon)
 }
 
 type pc2 struct{ pid, ctx []byte }
